@@ -77,7 +77,7 @@ def run(ctx):
                 if pre in ("junk-last", "junk-first") and not (ext in RESTART and t.n_frames > 1):
                     continue
                 path = os.path.join(ctx.scratch, "Exist_A" + ext)        # mixed case on purpose: the existence test must look at the path as given
-                fresh = os.path.join(ctx.scratch, "fresh" + ext)
+                fresh = os.path.join(ctx.scratch, "Fresh_A" + ext)          # same length as the other name: a gzip header holds the file name
                 multi_restart = ext in RESTART and t.n_frames > 1
                 targets = [path]
                 if multi_restart:
